@@ -371,13 +371,175 @@ def json_item(rec, _):
   rec.nt('json')
 
 
+# ---------------------------------------------------------------------------
+# binding histories: a functor is a mutable partial application
+# ---------------------------------------------------------------------------
+def _hist_plain(a, b=1, c=None):
+  return (a, b, None if c is None else c['p'])
+
+
+@pg.functor()
+def HistF(a, b=1, c=None):
+  return (a, b, None if c is None else c['p'])
+
+
+HIST_STARTS = {
+    'F()': (lambda: HistF(), {}),
+    'F(1)': (lambda: HistF(1), dict(a=1)),
+    'F(1,c={p:1})': (lambda: HistF(1, c=pg.Dict(p=1)), dict(a=1, c={'p': 1})),
+    'F(1,2,{p:1})': (lambda: HistF(1, 2, pg.Dict(p=1)), dict(a=1, b=2, c={'p': 1})),
+    'F(b=1)': (lambda: HistF(b=1), dict(b=1)),
+}
+
+
+HIST_DEFAULTS = dict(b=1, c=None)
+
+
+def hist_ops(bound):
+  """Writing the value an argument already has is a no-op for the library (it does not make the argument 'bound'), and
+  rebinding a defaulted argument to MISSING_VALUE resets it without un-binding it; neither is generated. `del` un-binds."""
+  ops = []
+  effective = lambda n: bound.get(n, HIST_DEFAULTS.get(n, '<unbound>'))
+  for name, vals in (('a', (1, 2)), ('b', (1, 9))):
+    for v in vals:
+      if v != effective(name):
+        ops.append(('set', name, v))
+  if effective('c') != {'p': 1}:
+    ops.append(('set', 'c', 'dict'))
+  if 'a' in bound:
+    ops.append(('unset', 'a'))
+  for name in ('a', 'b', 'c'):
+    if name in bound:
+      ops.append(('del', name))
+  if isinstance(bound.get('c'), dict):
+    for v in (5, 6):
+      if bound['c'] == {'p': v}:
+        continue
+      ops.append(('nested', v))
+      for name, tv in (('a', 7), ('b', 9), ('b', 1)):
+        if tv != effective(name):
+          ops.append(('batch', v, name, tv, 'nested-first'))
+          ops.append(('batch', v, name, tv, 'top-first'))
+      if 'a' in bound:
+        ops.append(('batch', v, 'a', 'MISSING', 'nested-first'))
+      break
+  return ops
+
+
+def hist_apply(f, bound, op):
+  """Applies op to the functor and to the model (dict of explicitly bound arguments)."""
+  k = op[0]
+  if k == 'set':
+    v = pg.Dict(p=1) if op[2] == 'dict' else op[2]
+    f.rebind({op[1]: v})
+    bound[op[1]] = {'p': 1} if op[2] == 'dict' else op[2]
+  elif k == 'unset':
+    f.rebind({op[1]: pg.MISSING_VALUE})
+    bound.pop(op[1])
+  elif k == 'del':
+    delattr(f, op[1])
+    bound.pop(op[1])
+  elif k == 'nested':
+    f.rebind({'c.p': op[1]})
+    bound['c'] = {'p': op[1]}
+  elif k == 'batch':
+    _, v, name, tv, order = op
+    pairs = [('c.p', v), (name, pg.MISSING_VALUE if tv == 'MISSING' else tv)]
+    if order == 'top-first':
+      pairs.reverse()
+    f.rebind(dict(pairs))
+    bound['c'] = {'p': v}
+    if tv == 'MISSING':
+      bound.pop(name)
+    else:
+      bound[name] = tv
+
+
+def hist_observe(f):
+  return dict(
+      call=outcome(lambda: f()),
+      call_b=outcome(lambda: f(b=7)),
+      call_pos=outcome(lambda: f(5)),
+      call_override=outcome(lambda: f(b=7, override_args=True)),
+      specified=sorted(f.specified_args),
+  )
+
+
+def hist_model(bound):
+  def call(extra_pos=(), extra_kw=None, override=False):
+    kw = dict(bound)
+    extra_kw = extra_kw or {}
+    if extra_pos:
+      if 'a' in kw and not override:
+        return ('exc', 'TypeError')
+      kw['a'] = extra_pos[0]
+    for k2, v2 in extra_kw.items():
+      if k2 in kw and not override:
+        return ('exc', 'TypeError')
+      kw[k2] = v2
+    return outcome(lambda: _hist_plain(**kw))
+  return dict(call=call(), call_b=call(extra_kw=dict(b=7)), call_pos=call(extra_pos=(5,)),
+              call_override=call(extra_kw=dict(b=7), override=True), specified=sorted(bound))
+
+
+def hist_item(rec, item):
+  """All histories of (re)binding, unbinding, deleting and batched nested + top-level rebinds up to the depth; after every
+  step the functor is called in four ways and compared with the interpreter calling the plain function with the bound arguments."""
+  start, depth = item
+  mk, bound0 = HIST_STARTS[start]
+
+  def explore(hist):
+    f = mk()
+    bound = {k: (dict(v) if isinstance(v, dict) else v) for k, v in bound0.items()}
+    try:
+      for op in hist:
+        hist_apply(f, bound, op)
+    except Exception as e:  # pylint: disable=broad-except
+      rec.viol(f'history-op-raises:{type(e).__name__}/{hist[-1][0]}', f'{start} then {hist!r}: {e}', dict(kind='hist', start=start, hist=[list(o) for o in hist]))
+      return
+    rec.evals += 1
+    rec.trans += 1
+    got, want = hist_observe(f), hist_model(bound)
+    tr = dict(kind='hist', start=start, hist=[list(o) for o in hist])
+    bad = [k for k in want if got[k] != want[k]]
+    if not bad:
+      # copies behave like the original
+      for how, cp in (('clone', lambda: f.clone(deep=True)), ('json', lambda: pg.from_json(pg.to_json(f)))):
+        try:
+          g = hist_observe(cp())
+          if how == 'json':
+            g.pop('specified'), g.pop('call_b')       # what counts as explicitly bound is not part of the JSON form
+          diff = [k for k in g if g[k] != want[k]]
+          if diff:
+            rec.viol(f'history-copy-differs/{how}/{diff[0]}', f'{start} then {hist!r}: {how} gives {diff[0]}={g[diff[0]]!r}, expected {want[diff[0]]!r}', tr)
+            bad = diff
+        except Exception as e:  # pylint: disable=broad-except
+          rec.viol(f'history-copy-raises:{type(e).__name__}/{how}', f'{start} then {hist!r}: {e}', tr)
+          bad = ['copy']
+    else:
+      last = hist[-1][0] if hist else 'construct'
+      rec.viol(f'history-call-differs/{last}/{bad[0]}', f'{start} then {hist!r}: bound arguments per model {bound!r}; '
+               f'{bad[0]}: functor gives {got[bad[0]]!r}, plain Python {want[bad[0]]!r}', tr)
+    if bad:
+      return
+    rec.nt((start, tuple(hist)))
+    if len(hist) < depth:
+      for op in hist_ops(bound):
+        explore(hist + [op])
+
+  explore([])
+
+
 def run(ctx):
+  ctx.pmap(hist_item, [(s, 3 if ctx.thorough else 2) for s in HIST_STARTS], chunk=1)
   ctx.rule = ('every signature with at most N parameters built from required / defaulted positionals, *args, keyword-only with '
               'and without default, **kwargs, with and without annotations, as plain function (pg.functor_class, pg.symbolize) '
               'and as class (pg.symbolize, pg.wrap) x every call pattern: 0..4 construction-time positionals x keyword subsets '
               '(parameter names + one unknown name) x 0..2 call-time positionals x keyword subsets x override flag; the final '
               'outcome of construct-then-call is compared with the interpreter calling the original with the effective '
-              'arguments; generated __init__ signature, sym_init_args, clone and JSON round trips; distinct_nontrivial = '
+              'arguments; generated __init__ signature, sym_init_args, clone and JSON round trips; all binding histories (set / '
+              'unset / delete / nested and batched rebinds) up to depth 2 (3 thorough) on 5 partial applications, four call forms '
+              'after every step; distinct_nontrivial = '
               'patterns that returned a value equal to the interpreter\'s')
   sigs = signatures(5 if ctx.thorough else 4)
   ctx.pmap(sig_item, [(s, i, ctx.tier) for i, s in enumerate(sigs)], chunk=1)
@@ -396,6 +558,8 @@ def replay(rec, data):
     return json_item(rec, 0)
   if data.get('kind') == 'nested':
     return nested_item(rec, 0)
+  if data.get('kind') == 'hist':
+    return hist_item(rec, (data['start'], 3))
   sig = data['sig']
   sig = (sig[0], sig[1], sig[2], tuple(sig[3]), sig[4], sig[5])
   sig_item(rec, (sig, 9999, 'thorough'))
